@@ -1032,7 +1032,7 @@ func encodeTextSTL(i string) (o []byte) {
 	for _, c := range i {
 		if v, ok := stlUnicodeMapping.GetInverse(string(c)); ok {
 			o = append(o, v.(byte))
-		} else if v, ok := stlUnicodeDiacritic.GetInverse(string(c)); ok {
+		} else if v, ok := stlUnicodeDiacritic.GetInverse(string(c)); ok && len(o) > 0 {
 			o = append(o[:len(o)-1], v.(byte), o[len(o)-1])
 		} else {
 			o = append(o, byte(c))
